@@ -3828,6 +3828,10 @@ def c02_compute_delj_py():
                         out.append(prove_eq('%s.path%d' % (tag, pi), hy + list(p.pc), v, z3.RealVal(1) / 2, fn))
                         continue
                     exp = uf('exp')
+                    if not (isinstance(v, VList) and len(v.items) == shape[0] and all(isinstance(r_, VList) and len(r_.items) == shape[1] for r_ in v.items)):
+                        out.append(struct('%s.path%d.shape' % (tag, pi), False, 'with the switch on the result is %s, not a %dx%d array of Chang-Cooper weights '
+                                          '(is the switch read when the function is called?)' % (vrepr(v)[:60], shape[0], shape[1]), fn, finding_key='C02/_compute_delj/switch'))
+                        continue
                     for i in range(shape[0]):
                         for j in range(shape[1]):
                             k = (i, j)[axis]
